@@ -22,12 +22,13 @@
 use oxidd::mtbdd::terminal::{F64, I64};
 use oxidd::mtbdd::{MTBDDFunction, MTBDDManagerRef};
 use oxidd::{
-    Function, HasLevel, InnerNode, Manager, ManagerRef, Node, NumberBase, PseudoBooleanFunction,
+    Edge, Function, HasLevel, InnerNode, Manager, ManagerRef, Node, NumberBase, PseudoBooleanFunction,
 };
+use oxidd_core::LevelView;
 use oxv::*;
 use std::borrow::Borrow;
 use std::cmp::Ordering;
-use std::collections::{BTreeMap, HashMap};
+use std::collections::{BTreeMap, HashMap, HashSet};
 use std::io::Write;
 
 // ------------------------------------------------------------------------------------------
@@ -330,11 +331,33 @@ impl<T: Term> Tree<T> {
             }
         }
     }
-    /// ordered (variable numbers increase strictly downwards; identity order) and reduced
-    fn nf(&self, lb: u32) -> bool {
+    /// ordered (levels increase strictly downwards; `v2l` maps variables to levels) and reduced
+    fn nf(&self, lb: u32, v2l: &[u32]) -> bool {
         match self {
             Tree::Leaf(_) => true,
-            Tree::Node(v, t, e) => *v >= lb && t != e && t.nf(v + 1) && e.nf(v + 1),
+            Tree::Node(v, t, e) => {
+                let l = v2l[*v as usize];
+                l >= lb && t != e && t.nf(l + 1, v2l) && e.nf(l + 1, v2l)
+            }
+        }
+    }
+    fn show_string(&self) -> String {
+        let mut s = String::new();
+        self.show(&mut s);
+        s
+    }
+    /// distinct inner sub-diagrams (as printed trees) and distinct terminal values below this root
+    fn collect(&self, inner: &mut HashSet<String>, terms: &mut HashSet<String>) {
+        match self {
+            Tree::Leaf(t) => {
+                terms.insert(t.tok());
+            }
+            Tree::Node(_, t, e) => {
+                if inner.insert(self.show_string()) {
+                    t.collect(inner, terms);
+                    e.collect(inner, terms);
+                }
+            }
         }
     }
     fn zero_one(&self) -> bool {
@@ -384,17 +407,192 @@ impl<T: Term> Tree<T> {
 struct MgrState<T: Term> {
     // field order: handles are dropped before the manager
     hs: HashMap<String, MTBDDFunction<T>>,
+    /// value table of every live handle at the time it was created (gc, reordering and failed
+    /// operations must not change it)
+    tabs: HashMap<String, Vec<T>>,
     mref: MTBDDManagerRef<T>,
     n: u32,
+    inner_cap: usize,
+    term_cap: usize,
+}
+
+const DEFAULT_INNER: usize = 1 << 12;
+const DEFAULT_TERMS: usize = 1 << 10;
+
+/// what the structural audit (C03-style, through the public API) found
+struct Audit {
+    /// (level, printed tree, reference count) of every stored inner node (garbage included)
+    nodes: Vec<(u32, String, usize)>,
+    /// printed children of every stored inner node
+    child_trees: Vec<String>,
+    terminals: usize,
+}
+
+fn audit_rec<M, T: Term>(m: &M) -> Result<Audit, String>
+where
+    M: Manager<Terminal = T>,
+    M::InnerNode: HasLevel,
+{
+    let n = m.num_levels();
+    if m.num_vars() != n {
+        return Err(format!("num_vars {} != num_levels {}", m.num_vars(), n));
+    }
+    for l in 0..n {
+        let v = m.level_to_var(l);
+        if v >= n || m.var_to_level(v) != l {
+            return Err(format!("var_to_level(level_to_var({l})) != {l}"));
+        }
+    }
+    for v in 0..n {
+        if m.level_to_var(m.var_to_level(v)) != v {
+            return Err(format!("level_to_var(var_to_level({v})) != {v}"));
+        }
+    }
+    let mut nodes = Vec::new();
+    let mut child_trees = Vec::new();
+    let mut seen_levels = 0;
+    for view in m.levels() {
+        let l = view.level_no();
+        seen_levels += 1;
+        let mut dups: HashSet<Vec<usize>> = HashSet::new();
+        if view.len() != view.iter().count() {
+            return Err(format!("level {l}: len() = {} but the iterator yields {} nodes", view.len(), view.iter().count()));
+        }
+        for e in view.iter() {
+            let node = match m.get_node(e) {
+                Node::Inner(n) => n,
+                Node::Terminal(_) => return Err(format!("level {l} lists a terminal")),
+            };
+            let shown = unfold_rec::<M, T>(m, e).show_string();
+            if !node.check_level(|x| x == l) {
+                return Err(format!("level {l} lists node {shown} that reports level {}", node.level()));
+            }
+            let mut key = Vec::new();
+            for c in node.children() {
+                if let Node::Inner(cn) = m.get_node(&c) {
+                    if cn.level() <= l {
+                        return Err(format!("node {shown} at level {l} has a child at level {}", cn.level()));
+                    }
+                }
+                key.push(c.node_id());
+                child_trees.push(unfold_rec::<M, T>(m, &c).show_string());
+            }
+            if key.len() != 2 {
+                return Err(format!("node {shown} has {} children", key.len()));
+            }
+            if key[0] == key[1] {
+                return Err(format!("node {shown} at level {l} has two equal children (not reduced)"));
+            }
+            if !dups.insert(key) {
+                return Err(format!("level {l}: two nodes with identical children ({shown})"));
+            }
+            nodes.push((l, shown, node.ref_count()));
+        }
+    }
+    if seen_levels != n {
+        return Err(format!("levels() yields {seen_levels} levels, num_levels() = {n}"));
+    }
+    if nodes.len() != m.num_inner_nodes() {
+        return Err(format!("num_inner_nodes() = {} but iterating the levels finds {}", m.num_inner_nodes(), nodes.len()));
+    }
+    // terminals: the iterator hands out owned edges which have to be given back
+    let mut vals: HashSet<String> = HashSet::new();
+    let mut count = 0usize;
+    let mut dup = None;
+    let edges: Vec<M::Edge> = m.terminals().collect();
+    for e in edges {
+        match m.get_node(&e) {
+            Node::Terminal(t) => {
+                count += 1;
+                let tk = t.borrow().tok();
+                if !vals.insert(tk.clone()) {
+                    dup = Some(tk);
+                }
+            }
+            Node::Inner(_) => dup = Some("an inner node".into()),
+        }
+        m.drop_edge(e);
+    }
+    if let Some(d) = dup {
+        return Err(format!("terminals() lists {d} twice / wrongly"));
+    }
+    if count != m.num_terminals() {
+        return Err(format!("num_terminals() = {} but the iterator yields {}", m.num_terminals(), count));
+    }
+    Ok(Audit { nodes, child_trees, terminals: count })
 }
 
 impl<T: Term> MgrState<T> {
-    fn new(n: u32) -> Self {
-        let mref = oxidd::mtbdd::new_manager::<T>(1 << 12, 1 << 10, 1 << 10, 1);
+    fn new(n: u32, inner_cap: usize, term_cap: usize) -> Self {
+        let mref = oxidd::mtbdd::new_manager::<T>(inner_cap, term_cap, 1 << 10, 1);
         mref.with_manager_exclusive(|m| {
             m.add_vars(n);
         });
-        MgrState { hs: HashMap::new(), mref, n }
+        MgrState { hs: HashMap::new(), tabs: HashMap::new(), mref, n, inner_cap, term_cap }
+    }
+
+    fn l2v(&self) -> Vec<u32> {
+        self.mref.with_manager_shared(|m| (0..m.num_levels()).map(|l| m.level_to_var(l)).collect())
+    }
+    fn v2l(&self) -> Vec<u32> {
+        self.mref.with_manager_shared(|m| (0..m.num_vars()).map(|v| m.var_to_level(v)).collect())
+    }
+    fn counts(&self) -> (usize, usize) {
+        self.mref.with_manager_shared(|m| (m.num_inner_nodes(), m.num_terminals()))
+    }
+
+    fn audit(&self, ctx: &mut Ctx, when: &str) -> Option<Audit> {
+        match self.mref.with_manager_shared(|m| audit_rec(m)) {
+            Ok(a) => Some(a),
+            Err(e) => {
+                ctx.fail("audit", &format!("structural audit {}: {}", when, e));
+                None
+            }
+        }
+    }
+
+    /// every live handle still has the value table it was created with
+    fn check_tables(&self, ctx: &mut Ctx, sig: &str, when: &str) {
+        let mut names: Vec<&String> = self.hs.keys().collect();
+        names.sort();
+        for k in names {
+            let f = &self.hs[k];
+            let tab = self.table(f);
+            let tree = unfold(f);
+            let walk: Vec<T> = (0..(1u32 << self.n)).map(|a| tree.walk(a)).collect();
+            if tab != self.tabs[k] || walk != self.tabs[k] {
+                let a = (0..tab.len()).find(|&a| tab[a] != self.tabs[k][a] || walk[a] != self.tabs[k][a]).unwrap();
+                ctx.fail(sig, &format!(
+                    "handle {} {}: under assignment {:0w$b} (bit i = variable i) it now evaluates to {} (node walk: {}) but it was {}",
+                    k, when, a, tab[a].tok(), walk[a].tok(), self.tabs[k][a].tok(), w = self.n as usize));
+                break;
+            }
+        }
+    }
+
+    /// reference-count oracle: count of a stored inner node = live handles + stored parent edges
+    fn rcchk(&self, ctx: &mut Ctx, when: &str) {
+        let Some(a) = self.audit(ctx, when) else { return };
+        let mut expected: HashMap<String, usize> = HashMap::new();
+        for f in self.hs.values() {
+            let t = unfold(f);
+            if t.is_leaf().is_none() {
+                *expected.entry(t.show_string()).or_insert(0) += 1;
+            }
+        }
+        for c in &a.child_trees {
+            if c.starts_with('(') {
+                *expected.entry(c.clone()).or_insert(0) += 1;
+            }
+        }
+        for (l, t, rc) in &a.nodes {
+            let e = *expected.get(t).unwrap_or(&0);
+            if e != *rc {
+                ctx.fail("ref-count", &format!("{}: node {} at level {} reports ref_count {} but {} references exist (live handles + stored parent edges)", when, t, l, rc, e));
+                break;
+            }
+        }
+        ctx.count("rcchk");
     }
 
     /// truth table through the public `eval`
@@ -412,7 +610,7 @@ impl<T: Term> MgrState<T> {
                 break;
             }
         }
-        if !tree.nf(0) {
+        if !tree.nf(0, &self.v2l()) {
             ctx.fail(&format!("{}-nf", T::KIND), &format!("{}: result is not ordered/reduced", what));
         }
         if let Some(exp) = expect {
@@ -436,7 +634,16 @@ impl<T: Term> MgrState<T> {
         let mut s = String::new();
         tree.show(&mut s);
         self.hs.insert(h.to_string(), f);
+        self.tabs.insert(h.to_string(), tab);
         s
+    }
+
+    /// an operation reported `OutOfMemory`: the target handle is not (re)bound
+    fn oom(&mut self, h: &str, ctx: &mut Ctx) -> String {
+        self.hs.remove(h);
+        self.tabs.remove(h);
+        ctx.count("oom");
+        "OOM".into()
     }
 
     fn step(&mut self, ws: &[&str], ctx: &mut Ctx) -> String {
@@ -445,7 +652,7 @@ impl<T: Term> MgrState<T> {
                 let Some(t) = T::parse(v) else { return "bad-op".into() };
                 let f = match self.mref.with_manager_shared(|m| MTBDDFunction::constant(m, t)) {
                     Ok(f) => f,
-                    Err(_) => return "err oom".into(),
+                    Err(_) => return self.oom(h, ctx),
                 };
                 let exp = vec![t; 1 << self.n];
                 ctx.count("const");
@@ -458,7 +665,7 @@ impl<T: Term> MgrState<T> {
                 }
                 let f = match self.mref.with_manager_shared(|m| MTBDDFunction::<T>::var(m, v)) {
                     Ok(f) => f,
-                    Err(_) => return "err oom".into(),
+                    Err(_) => return self.oom(h, ctx),
                 };
                 let exp = (0..(1u32 << self.n)).map(|a| if (a >> v) & 1 != 0 { T::one() } else { T::zero() }).collect();
                 ctx.count("var");
@@ -477,7 +684,7 @@ impl<T: Term> MgrState<T> {
                     "min" => PseudoBooleanFunction::min(f, g),
                     _ => PseudoBooleanFunction::max(f, g),
                 };
-                let Ok(r) = r else { return "err oom".into() };
+                let Ok(r) = r else { return self.oom(h, ctx) };
                 // which situation of the property is exercised (classification from the operands)
                 let (tf, tg) = (unfold(f), unfold(g));
                 ctx.count(&format!("op.{}", o));
@@ -518,7 +725,7 @@ impl<T: Term> MgrState<T> {
                     ctx.count("ite.precond-violated");
                     return "err precond".into();
                 }
-                let Ok(r) = fc.ite(fa, fb) else { return "err oom".into() };
+                let Ok(r) = fc.ite(fa, fb) else { return self.oom(h, ctx) };
                 let (tc, ta, tb) = (self.table(fc), self.table(fa), self.table(fb));
                 let exp: Vec<T> = (0..tc.len()).map(|i| if tc[i].is_one() { ta[i] } else { tb[i] }).collect();
                 ctx.count("ite");
@@ -533,7 +740,7 @@ impl<T: Term> MgrState<T> {
                     ctx.count("restrict.precond-violated");
                     return "err precond".into();
                 };
-                let Ok(r) = f.restrict(vars) else { return "err oom".into() };
+                let Ok(r) = f.restrict(vars) else { return self.oom(h, ctx) };
                 let tf = self.table(f);
                 let exp: Vec<T> = (0..(1u32 << self.n))
                     .map(|mut s| {
@@ -566,6 +773,129 @@ impl<T: Term> MgrState<T> {
                 ctx.count("eval");
                 r.tok()
             }
+            ["clone", h, a] => {
+                let Some(f) = self.hs.get(*a).cloned() else { return "err handle".into() };
+                let t = self.tabs[*a].clone();
+                self.hs.insert(h.to_string(), f);
+                self.tabs.insert(h.to_string(), t);
+                ctx.count("clone");
+                "ok".into()
+            }
+            ["drop", a] => {
+                if self.hs.remove(*a).is_none() {
+                    return "err handle".into();
+                }
+                self.tabs.remove(*a);
+                ctx.count("drop");
+                "ok".into()
+            }
+            ["dropall"] => {
+                self.hs.clear();
+                self.tabs.clear();
+                ctx.count("dropall");
+                "ok".into()
+            }
+            ["eq", a, b] => {
+                let (Some(f), Some(g)) = (self.hs.get(*a), self.hs.get(*b)) else { return "err handle".into() };
+                let same = f == g;
+                let same_fn = self.table(f) == self.table(g);
+                if same != same_fn {
+                    // C01: two handles are equal iff they denote the same function
+                    ctx.fail("canonicity", &format!("{} == {} is {} but the value tables are {}", a, b, same, if same_fn { "equal" } else { "different" }));
+                }
+                use std::hash::{BuildHasher, BuildHasherDefault, DefaultHasher};
+                let bh = BuildHasherDefault::<DefaultHasher>::default();
+                if same && bh.hash_one(f) != bh.hash_one(g) {
+                    ctx.fail("hash-vs-eq", "equal handles hash differently");
+                }
+                if same != (f.cmp(g) == Ordering::Equal) {
+                    ctx.fail("ord-vs-eq", "Ord on handles disagrees with ==");
+                }
+                ctx.count(if same { "eq.true" } else { "eq.false" });
+                (if same { "1" } else { "0" }).into()
+            }
+            ["gc"] => {
+                let (ib, tb) = self.counts();
+                let c = self.mref.with_manager_shared(|m| m.gc());
+                let (ia, ta) = self.counts();
+                if ib < ia || tb < ta || c != (ib - ia) + (tb - ta) {
+                    ctx.fail("gc-return", &format!("gc() returned {} but inner nodes went {} -> {} and terminals {} -> {}", c, ib, ia, tb, ta));
+                }
+                // C05: exactly what is reachable from live handles remains
+                let mut inner = HashSet::new();
+                let mut terms = HashSet::new();
+                for f in self.hs.values() {
+                    unfold(f).collect(&mut inner, &mut terms);
+                }
+                if ia != inner.len() {
+                    ctx.fail("gc-not-exact", &format!("after gc {} inner nodes are stored but {} are reachable from the {} live handles", ia, inner.len(), self.hs.len()));
+                }
+                if ta != terms.len() {
+                    ctx.fail("gc-terminals-not-exact", &format!("after gc {} terminals are stored but {} are reachable from the {} live handles", ta, terms.len(), self.hs.len()));
+                }
+                self.check_tables(ctx, "gc-changed-function", "after gc");
+                self.rcchk(ctx, "after gc");
+                ctx.count("gc");
+                ctx.add("gc.collected", c as u64);
+                if self.hs.is_empty() {
+                    ctx.count("gc.empty-manager");
+                }
+                format!("{} {}", ia, ta)
+            }
+            ["rcchk"] => {
+                self.rcchk(ctx, "rcchk");
+                "ok".into()
+            }
+            ["order", rest @ ..] => {
+                let seq = rest.iter().any(|x| *x == "seq=1");
+                let mut order: Vec<u32> = Vec::new();
+                for x in rest.iter().filter(|x| !x.contains('=')) {
+                    match x.parse::<u32>() {
+                        Ok(v) if v < self.n && !order.contains(&v) => order.push(v),
+                        _ => return "bad-op".into(),
+                    }
+                }
+                let before = self.l2v();
+                let live = self.counts().0;
+                self.mref.with_manager_exclusive(|m| {
+                    if seq {
+                        oxidd_reorder::set_var_order_seq(m, &order)
+                    } else {
+                        oxidd_reorder::set_var_order(m, &order)
+                    }
+                });
+                let l2v = self.l2v();
+                let pos: HashMap<u32, usize> = l2v.iter().enumerate().map(|(l, &v)| (v, l)).collect();
+                if l2v.len() != before.len() || pos.len() != l2v.len() {
+                    ctx.fail("perm-broken", &format!("level_to_var is {:?} after reordering (before: {:?})", l2v, before));
+                } else {
+                    for p in order.windows(2) {
+                        if pos[&p[0]] >= pos[&p[1]] {
+                            ctx.fail("order-not-established", &format!("requested {:?} but level_to_var is {:?}", order, l2v));
+                            break;
+                        }
+                    }
+                }
+                // C08: every live handle denotes the same function
+                self.check_tables(ctx, "reorder-changed-function", &format!("after set_var_order {:?} (level_to_var before: {:?})", order, before));
+                // structure: children on strictly lower levels, reduced, unique, level bookkeeping
+                self.rcchk(ctx, "after reordering");
+                let v2l = self.v2l();
+                for (k, f) in &self.hs {
+                    if !unfold(f).nf(0, &v2l) {
+                        ctx.fail("reorder-nf", &format!("handle {} is not ordered/reduced after reordering", k));
+                        break;
+                    }
+                }
+                ctx.count("order");
+                if l2v != before {
+                    ctx.count("order.changed");
+                    if live > 0 {
+                        ctx.count("order.changed-with-stored-nodes");
+                    }
+                }
+                l2v.iter().map(|v| v.to_string()).collect::<Vec<_>>().join(" ")
+            }
             _ => "bad-op".into(),
         }
     }
@@ -579,6 +909,12 @@ enum St {
 
 struct Sc {
     st: St,
+    /// the capped twin of `st` in C14 cases
+    capped: St,
+    /// an operation failed on the capped manager, so its handle set is a subset of the reference's
+    diverged: bool,
+    /// a `kf-mtbdd-…` case is executed by a child process so that an abort does not end the stream
+    child: Option<KfChild>,
 }
 
 fn f64_laws(a: F64, ctx: &mut Ctx) {
@@ -608,9 +944,15 @@ fn f64_laws(a: F64, ctx: &mut Ctx) {
 
 impl Scenario for Sc {
     fn reset(&mut self) {
+        self.capped = St::None;
         self.st = St::None;
+        self.diverged = false;
+        self.child = None;
     }
     fn step(&mut self, line: &str, ctx: &mut Ctx) -> String {
+        if ctx.case.starts_with("case kf-mtbdd-") && !ctx.extra.contains_key("kf-child") {
+            return self.kf_step(line, ctx);
+        }
         let ws = words(line);
         match ws.as_slice() {
             ["i64", o, a, b] => {
@@ -682,33 +1024,124 @@ impl Scenario for Sc {
                     _ => "bad-op".into(),
                 }
             }
-            ["mgr", n] => match n.parse::<u32>() {
-                Ok(n) if n <= 16 => {
-                    self.st = St::None;
-                    self.st = St::I(MgrState::new(n));
-                    "ok".into()
+            ["mgr", n, rest @ ..] => {
+                // mgr <nvars> [f64] [inner=<k> terms=<k>]: with capacities the lines are run on an
+                // uncapped reference manager (printed, compared with the model) AND on the capped one
+                let Ok(n) = n.parse::<u32>() else { return "bad-op".into() };
+                let opts: Vec<&&str> = rest.iter().filter(|x| !x.contains('=')).collect();
+                let f64m = match opts.as_slice() {
+                    [] => false,
+                    [x] if **x == "f64" => true,
+                    _ => return "bad-op".into(),
+                };
+                if n > 16 {
+                    return "bad-op".into();
                 }
-                _ => "bad-op".into(),
-            },
-            ["mgr", n, "f64"] => match n.parse::<u32>() {
-                Ok(n) if n <= 16 => {
-                    self.st = St::None;
-                    self.st = St::F(MgrState::new(n));
-                    "ok".into()
+                let kv = |k: &str| rest.iter().find_map(|x| x.strip_prefix(k)).and_then(|x| x.parse::<usize>().ok());
+                let (ic, tc) = (kv("inner="), kv("terms="));
+                self.st = St::None;
+                self.capped = St::None;
+                self.diverged = false;
+                self.st = if f64m { St::F(MgrState::new(n, DEFAULT_INNER, DEFAULT_TERMS)) } else { St::I(MgrState::new(n, DEFAULT_INNER, DEFAULT_TERMS)) };
+                if ic.is_some() || tc.is_some() {
+                    let (ic, tc) = (ic.unwrap_or(DEFAULT_INNER), tc.unwrap_or(DEFAULT_TERMS));
+                    self.capped = if f64m { St::F(MgrState::new(n, ic, tc)) } else { St::I(MgrState::new(n, ic, tc)) };
+                    ctx.count("capped.managers");
                 }
-                _ => "bad-op".into(),
-            },
-            ws => match &mut self.st {
-                St::None => {
-                    if matches!(ws.first(), Some(&"const" | &"var" | &"op" | &"ite" | &"restrict" | &"eval")) {
-                        "err nomgr".into()
-                    } else {
-                        "bad-op".into()
-                    }
+                "ok".into()
+            }
+            ws => {
+                let out_ref = self.st.step(ws, ctx);
+                if !matches!(self.capped, St::None) {
+                    self.capped_step(line, ws, &out_ref, ctx);
                 }
-                St::I(m) => m.step(ws, ctx),
-                St::F(m) => m.step(ws, ctx),
-            },
+                out_ref
+            }
+        }
+    }
+}
+
+impl St {
+    fn step(&mut self, ws: &[&str], ctx: &mut Ctx) -> String {
+        match self {
+            St::None => {
+                if matches!(ws.first(), Some(&"const" | &"var" | &"op" | &"ite" | &"restrict" | &"eval" | &"clone" | &"drop" | &"dropall" | &"eq" | &"gc" | &"rcchk" | &"order")) {
+                    "err nomgr".into()
+                } else {
+                    "bad-op".into()
+                }
+            }
+            St::I(m) => m.step(ws, ctx),
+            St::F(m) => m.step(ws, ctx),
+        }
+    }
+    /// (inner nodes, terminals, inner capacity, terminal capacity)
+    fn usage(&self) -> (usize, usize, usize, usize) {
+        match self {
+            St::None => (0, 0, 0, 0),
+            St::I(m) => {
+                let (i, t) = m.counts();
+                (i, t, m.inner_cap, m.term_cap)
+            }
+            St::F(m) => {
+                let (i, t) = m.counts();
+                (i, t, m.inner_cap, m.term_cap)
+            }
+        }
+    }
+    fn integrity(&self, ctx: &mut Ctx, sig: &str, when: &str) {
+        match self {
+            St::None => {}
+            St::I(m) => {
+                m.rcchk(ctx, when);
+                m.check_tables(ctx, sig, when);
+            }
+            St::F(m) => {
+                m.rcchk(ctx, when);
+                m.check_tables(ctx, sig, when);
+            }
+        }
+    }
+}
+
+impl Sc {
+    /// C14: the same line on the capped manager; oracles only (the printed output is the reference's)
+    fn capped_step(&mut self, line: &str, ws: &[&str], out_ref: &str, ctx: &mut Ctx) {
+        let mut sub = Ctx { line_no: ctx.line_no, case: ctx.case.clone(), failures: Vec::new(), stats: BTreeMap::new(), extra: ctx.extra.clone() };
+        let out_cap = self.capped.step(ws, &mut sub);
+        for f in sub.failures.drain(..) {
+            ctx.failures.push(f.replace("\"sig\":\"", "\"sig\":\"capped-"));
+            ctx.count("oracle_failures");
+        }
+        if out_cap == "OOM" {
+            ctx.count("capped.oom");
+            self.diverged = true;
+            // legitimate only if a store really is full (single-threaded manager: deterministic)
+            let (i, t, ic, tc) = self.capped.usage();
+            if i < ic && t < tc {
+                ctx.fail("spurious-oom", &format!("`{}` reported out of memory although only {} of {} inner-node slots and {} of {} terminal slots are in use", line, i, ic, t, tc));
+            } else if t >= tc {
+                ctx.count("capped.oom.terminals-full");
+            } else {
+                ctx.count("capped.oom.inner-full");
+            }
+            // the manager is intact: structure, reference counts, every existing handle
+            let mut sub2 = Ctx { line_no: ctx.line_no, case: ctx.case.clone(), failures: Vec::new(), stats: BTreeMap::new(), extra: ctx.extra.clone() };
+            self.capped.integrity(&mut sub2, "oom-corrupted-handle", &format!("after the failed `{}`", line));
+            for f in sub2.failures.drain(..) {
+                ctx.failures.push(f.replace("\"sig\":\"", "\"sig\":\"after-oom-"));
+                ctx.count("oracle_failures");
+            }
+        } else if out_cap == "err handle" && self.diverged {
+            // an operand that could not be built under the capacity
+            ctx.count("capped.skipped");
+        } else if out_cap != out_ref && !(self.diverged && ws[0] == "gc") {
+            ctx.fail("capacity-dependent-result", &format!("`{}` gives {} under capacities inner={} terms={} but {} without limit", line, out_cap, self.capped.usage().2, self.capped.usage().3, out_ref));
+        } else {
+            ctx.count("capped.ok");
+            if self.diverged && ws[0] != "gc" && ws[0] != "dropall" && ws[0] != "drop" {
+                ctx.count("capped.ok-after-oom");
+            }
         }
     }
 }
@@ -1212,7 +1645,333 @@ fn gen_malformed(w: &mut dyn Write) {
     }
 }
 
+/// Writer that ends every case which created a manager with `dropall` + `gc`: after dropping
+/// every handle a collection must leave 0 inner nodes and 0 terminals (C05).
+struct CaseEnd<'a> {
+    w: &'a mut dyn Write,
+    buf: Vec<u8>,
+    has_mgr: bool,
+    skip: bool,
+}
+
+impl CaseEnd<'_> {
+    fn line(&mut self, l: &[u8]) -> std::io::Result<()> {
+        if l.starts_with(b"case") {
+            self.end()?;
+            self.skip = l.starts_with(b"case malformed");
+        } else if l.starts_with(b"mgr ") {
+            self.has_mgr = true;
+        }
+        self.w.write_all(l)?;
+        self.w.write_all(b"\n")
+    }
+    fn end(&mut self) -> std::io::Result<()> {
+        if self.has_mgr && !self.skip {
+            self.w.write_all(b"dropall\ngc\n")?;
+        }
+        self.has_mgr = false;
+        Ok(())
+    }
+}
+
+impl Write for CaseEnd<'_> {
+    fn write(&mut self, data: &[u8]) -> std::io::Result<usize> {
+        self.buf.extend_from_slice(data);
+        while let Some(p) = self.buf.iter().position(|&c| c == b'\n') {
+            let l: Vec<u8> = self.buf.drain(..=p).collect();
+            self.line(&l[..l.len() - 1])?;
+        }
+        Ok(data.len())
+    }
+    fn flush(&mut self) -> std::io::Result<()> {
+        self.w.flush()
+    }
+}
+
+fn perm_str(rng: &mut Rng, n: u32, partial: bool) -> String {
+    let mut vars: Vec<u32> = (0..n).collect();
+    rng.shuffle(&mut vars);
+    if partial {
+        let k = rng.range(0, n as u64) as usize;
+        vars.truncate(k);
+    }
+    vars.iter().map(|v| v.to_string()).collect::<Vec<_>>().join(" ")
+}
+
+/// C01/C05/C08 histories: operations interleaved with clone, drop, gc, set_var_order on live
+/// nodes, handle equality and the reference-count oracle
+fn gen_lifecycle(cfg: &GenCfg, rng: &mut Rng, w: &mut dyn Write, f64m: bool) {
+    let pool = if f64m { pool_f64() } else { pool_i64() };
+    let reps = if f64m { if cfg.thorough { 100 } else { 12 } } else if cfg.thorough { 1200 } else { 120 } * cfg.scale;
+    for k in 0..reps {
+        let n = rng.range(2, 5) as u32;
+        writeln!(w, "case life{}-{}", if f64m { "-f64" } else { "" }, k).unwrap();
+        mgr_header(w, n, f64m);
+        let one = if f64m { "3ff0000000000000" } else { "1" };
+        writeln!(w, "const one {}", one).unwrap();
+        let mut hs: Vec<String> = vec!["one".into()];
+        let mut lits: Vec<String> = Vec::new();
+        for v in 0..n {
+            writeln!(w, "op nx{} sub one x{}", v, v).unwrap();
+            hs.push(format!("x{}", v));
+            hs.push(format!("nx{}", v));
+            lits.push(format!("x{}", v));
+            lits.push(format!("nx{}", v));
+        }
+        let nf = rng.range(2, 4);
+        for i in 0..nf {
+            let name = format!("f{}", i);
+            // at most 4 variables in the table builder; the fifth comes in through operations
+            build_table(w, &name, n.min(4), &random_table(rng, n.min(4), &pool));
+            hs.push(name);
+        }
+        let steps = rng.range(25, 70);
+        for s in 0..steps {
+            if hs.is_empty() {
+                writeln!(w, "var x0 0").unwrap();
+                hs.push("x0".into());
+            }
+            let name = format!("r{}", s);
+            match rng.below(20) {
+                0..=5 => {
+                    let o = *rng.pick(&OPS);
+                    let (a, b) = (rng.pick(&hs).clone(), rng.pick(&hs).clone());
+                    writeln!(w, "op {} {} {} {}", name, o, a, b).unwrap();
+                    hs.push(name);
+                }
+                6 => {
+                    // the same function by two routes must be the same handle (C01)
+                    let o = *rng.pick(&["add", "mul", "min", "max"]);
+                    let (a, b) = (rng.pick(&hs).clone(), rng.pick(&hs).clone());
+                    writeln!(w, "op {}p {} {} {}", name, o, a, b).unwrap();
+                    writeln!(w, "op {}q {} {} {}", name, o, b, a).unwrap();
+                    writeln!(w, "eq {}p {}q", name, name).unwrap();
+                    hs.push(format!("{}p", name));
+                    hs.push(format!("{}q", name));
+                }
+                7 => {
+                    let (a, b) = (rng.pick(&hs).clone(), rng.pick(&hs).clone());
+                    writeln!(w, "eq {} {}", a, b).unwrap();
+                }
+                8 => {
+                    let a = rng.pick(&hs).clone();
+                    writeln!(w, "clone {} {}", name, a).unwrap();
+                    writeln!(w, "eq {} {}", name, a).unwrap();
+                    hs.push(name);
+                }
+                9 | 10 => {
+                    let i = rng.below(hs.len() as u64) as usize;
+                    let a = hs.swap_remove(i);
+                    writeln!(w, "drop {}", a).unwrap();
+                    hs.retain(|x| *x != a);
+                    lits.retain(|x| *x != a);
+                }
+                11 | 12 => {
+                    writeln!(w, "gc").unwrap();
+                }
+                13..=15 => {
+                    let partial = rng.chance(1, 3);
+                    let seq = if rng.chance(1, 3) { " seq=1" } else { "" };
+                    writeln!(w, "order {}{}", perm_str(rng, n, partial), seq).unwrap();
+                    if let Some(f) = hs.last() {
+                        writeln!(w, "eval {} {}", f, bits_str(rng, n)).unwrap();
+                    }
+                    // a variable created under the new order
+                    let v = rng.below(n as u64);
+                    writeln!(w, "var {}v {}", name, v).unwrap();
+                    let f = rng.pick(&hs).clone();
+                    writeln!(w, "op {} {} {}v {}", name, rng.pick(&OPS), name, f).unwrap();
+                    hs.push(format!("{}v", name));
+                    hs.push(name);
+                }
+                16 => {
+                    writeln!(w, "rcchk").unwrap();
+                }
+                17 => {
+                    if !lits.is_empty() {
+                        let c = rng.pick(&lits).clone();
+                        let (a, b) = (rng.pick(&hs).clone(), rng.pick(&hs).clone());
+                        writeln!(w, "ite {} {} {} {}", name, c, a, b).unwrap();
+                        hs.push(name);
+                    }
+                }
+                18 => {
+                    if lits.len() >= 2 {
+                        let (c1, c2) = (rng.pick(&lits).clone(), rng.pick(&lits).clone());
+                        let f = rng.pick(&hs).clone();
+                        // c1 * c2 is a cube unless they are opposite literals of one variable (then it
+                        // is 0, not a cube: `err precond`, and the result name stays unbound)
+                        writeln!(w, "op {}c mul {} {}", name, c1, c2).unwrap();
+                        writeln!(w, "restrict {} {} {}c", name, f, name).unwrap();
+                        hs.push(format!("{}c", name));
+                        if c1[c1.len() - 1..] != c2[c2.len() - 1..] || c1 == c2 {
+                            hs.push(name);
+                        }
+                    }
+                }
+                _ => {
+                    let f = rng.pick(&hs).clone();
+                    writeln!(w, "eval {} {}", f, bits_str(rng, n)).unwrap();
+                }
+            }
+        }
+        writeln!(w, "rcchk").unwrap();
+        writeln!(w, "gc").unwrap();
+    }
+}
+
+/// C08: every permutation of 3 (and 4) variables applied in sequence to live random functions
+fn gen_reorder_all(cfg: &GenCfg, rng: &mut Rng, w: &mut dyn Write) {
+    let pool = pool_i64();
+    let reps = if cfg.thorough { 40 } else { 6 } * cfg.scale;
+    for k in 0..reps {
+        let n = if k % 2 == 0 { 3 } else { 4 } as u32;
+        writeln!(w, "case reorder-all-{}", k).unwrap();
+        mgr_header(w, n, false);
+        for i in 0..4 {
+            build_table(w, &format!("f{}", i), n, &random_table(rng, n, &pool));
+        }
+        writeln!(w, "gc").unwrap();
+        // all permutations in a random sequence (Heap's algorithm order, then shuffled)
+        let mut perms: Vec<Vec<u32>> = Vec::new();
+        fn heap(k: usize, a: &mut Vec<u32>, out: &mut Vec<Vec<u32>>) {
+            if k == 1 {
+                out.push(a.clone());
+                return;
+            }
+            for i in 0..k {
+                heap(k - 1, a, out);
+                if k % 2 == 0 {
+                    a.swap(i, k - 1);
+                } else {
+                    a.swap(0, k - 1);
+                }
+            }
+        }
+        heap(n as usize, &mut (0..n).collect(), &mut perms);
+        rng.shuffle(&mut perms);
+        for (j, p) in perms.iter().enumerate() {
+            let seq = if j % 3 == 2 { " seq=1" } else { "" };
+            writeln!(w, "order {}{}", p.iter().map(|v| v.to_string()).collect::<Vec<_>>().join(" "), seq).unwrap();
+            let (a, b) = (rng.below(4), rng.below(4));
+            let v = rng.below(n as u64);
+            writeln!(w, "var y {}", v).unwrap();
+            writeln!(w, "eq y x{}", v).unwrap();
+            writeln!(w, "op g {} f{} f{}", rng.pick(&OPS), a, b).unwrap();
+            writeln!(w, "eval g {}", bits_str(rng, n)).unwrap();
+            if j % 5 == 4 {
+                writeln!(w, "gc").unwrap();
+            }
+        }
+        writeln!(w, "rcchk").unwrap();
+    }
+}
+
+/// C14: small inner-node and terminal capacities; the reference output is printed
+fn gen_capped(cfg: &GenCfg, rng: &mut Rng, w: &mut dyn Write) {
+    let pool = pool_i64();
+    let reps = if cfg.thorough { 600 } else { 60 } * cfg.scale;
+    for k in 0..reps {
+        let n = rng.range(1, 4) as u32;
+        let f64m = k % 10 == 9;
+        // three regimes: terminals are the bottleneck, inner nodes are, both are tight
+        let (ic, tc) = match k % 3 {
+            0 => (rng.range(16, 64), rng.range(1, 8)),
+            1 => (rng.range(1, 12), rng.range(16, 64)),
+            _ => (rng.range(2, 16), rng.range(2, 10)),
+        };
+        writeln!(w, "case capped-{}", k).unwrap();
+        writeln!(w, "mgr {}{} inner={} terms={}", n, if f64m { " f64" } else { "" }, ic, tc).unwrap();
+        let cst = |i: u64| if f64m { format!("{:016x}", (i as f64).to_bits()) } else { i.to_string() };
+        let mut hs: Vec<String> = Vec::new();
+        for round in 0..3 {
+            for v in 0..n {
+                writeln!(w, "var x{} {}", v, v).unwrap();
+                hs.push(format!("x{}", v));
+            }
+            // more and more distinct terminals / nodes
+            let m = rng.range(3, 14);
+            for i in 0..m {
+                let name = format!("c{}_{}", round, i);
+                if !f64m && rng.chance(1, 4) {
+                    writeln!(w, "const {} {}", name, rng.pick(&pool)).unwrap();
+                } else {
+                    writeln!(w, "const {} {}", name, cst(rng.below(40))).unwrap();
+                }
+                hs.push(name);
+            }
+            let steps = rng.range(5, 25);
+            for s in 0..steps {
+                let name = format!("r{}_{}", round, s);
+                match rng.below(10) {
+                    0..=5 => {
+                        let (a, b) = (rng.pick(&hs).clone(), rng.pick(&hs).clone());
+                        writeln!(w, "op {} {} {} {}", name, rng.pick(&OPS), a, b).unwrap();
+                        hs.push(name);
+                    }
+                    6 => {
+                        let v = rng.below(n as u64);
+                        let (a, b) = (rng.pick(&hs).clone(), rng.pick(&hs).clone());
+                        writeln!(w, "ite {} x{} {} {}", name, v, a, b).unwrap();
+                        hs.push(name);
+                    }
+                    7 => {
+                        let i = rng.below(hs.len() as u64) as usize;
+                        let a = hs.swap_remove(i);
+                        hs.retain(|x| *x != a);
+                        writeln!(w, "drop {}", a).unwrap();
+                        if hs.is_empty() {
+                            writeln!(w, "var x0 0").unwrap();
+                            hs.push("x0".into());
+                        }
+                    }
+                    8 => {
+                        writeln!(w, "gc").unwrap();
+                    }
+                    _ => {
+                        let f = rng.pick(&hs).clone();
+                        writeln!(w, "eval {} {}", f, bits_str(rng, n)).unwrap();
+                    }
+                }
+            }
+            // after dropping everything and collecting, the capped manager must work again
+            writeln!(w, "rcchk").unwrap();
+            writeln!(w, "dropall").unwrap();
+            writeln!(w, "gc").unwrap();
+            hs.clear();
+        }
+        writeln!(w, "var x0 0").unwrap();
+        writeln!(w, "const two {}", cst(2)).unwrap();
+        writeln!(w, "op y mul x0 two").unwrap();
+    }
+}
+
+/// known finding: `set_var_order` aborts the process when a level swap needs a node and the
+/// store is full (no error return).  Executed in a child process (see `Sc::kf_step`).
+fn gen_kf(w: &mut dyn Write) {
+    for (k, seq) in [(1, ""), (2, " seq=1")] {
+        writeln!(w, "case kf-mtbdd-reorder-oom-{}", k).unwrap();
+        writeln!(w, "mgr 3 inner=16 terms=64").unwrap();
+        for l in [
+            "var x0 0", "var x1 1", "var x2 2", "const c2 2", "const c4 4", "op a mul x1 c2", "op b mul x2 c4", "op s add x0 a", "op f add s b",
+            "drop a", "drop b", "drop s", "drop x0", "drop x1", "gc",
+        ] {
+            writeln!(w, "{}", l).unwrap();
+        }
+        // fill the capped store with live one-node functions (the last ones report OOM there)
+        for i in 0..12 {
+            writeln!(w, "const k{} {}", i, 100 + i).unwrap();
+            writeln!(w, "ite fill{} x2 k{} c2", i, i).unwrap();
+        }
+        writeln!(w, "rcchk").unwrap();
+        writeln!(w, "order 2 1 0{}", seq).unwrap();
+        writeln!(w, "eval f 101").unwrap();
+    }
+}
+
 fn generate(cfg: &GenCfg, rng: &mut Rng, w: &mut dyn Write) {
+    let mut ce = CaseEnd { w, buf: Vec::new(), has_mgr: false, skip: false };
+    let w: &mut dyn Write = &mut ce;
     gen_scalar_i64(cfg, rng, w);
     gen_scalar_f64(cfg, rng, w);
     gen_terminal_pairs(w);
@@ -1224,13 +1983,136 @@ fn generate(cfg: &GenCfg, rng: &mut Rng, w: &mut dyn Write) {
     gen_restrict_all(cfg, rng, w);
     gen_random(cfg, rng, w, false);
     gen_random(cfg, rng, w, true);
+    gen_lifecycle(cfg, rng, w, false);
+    gen_lifecycle(cfg, rng, w, true);
+    gen_reorder_all(cfg, rng, w);
+    gen_capped(cfg, rng, w);
+    if !cfg.extra.contains_key("no-kf") {
+        gen_kf(w);
+    }
     gen_malformed(w);
+    ce.end().unwrap();
+}
+
+// ------------------------------------------------------------------------------------------
+// known-finding cases: executed by a re-invoked child process
+// ------------------------------------------------------------------------------------------
+
+struct KfChild {
+    proc: std::process::Child,
+    stdin: std::process::ChildStdin,
+    stdout: std::io::BufReader<std::process::ChildStdout>,
+    dead: bool,
+}
+
+impl Drop for KfChild {
+    fn drop(&mut self) {
+        let _ = self.proc.kill();
+        let _ = self.proc.wait();
+    }
+}
+
+impl Sc {
+    /// Lines of a `case kf-mtbdd-…` go to a child (`<exe> kf-child`), which answers each line with
+    /// its output line followed by `@F <k>` and `k` oracle failures (JSON).  If the child dies
+    /// (abort), this and all further lines of the case answer `ABORT` and one `crash` failure is
+    /// reported; the stream itself survives.
+    fn kf_step(&mut self, line: &str, ctx: &mut Ctx) -> String {
+        use std::io::{BufRead, BufReader};
+        use std::process::{Command, Stdio};
+        if self.child.is_none() {
+            let exe = std::env::current_exe().expect("current_exe");
+            let mut proc = Command::new(exe)
+                .arg("kf-child")
+                .arg(&ctx.case)
+                .stdin(Stdio::piped())
+                .stdout(Stdio::piped())
+                .stderr(Stdio::null())
+                .spawn()
+                .expect("spawn kf child");
+            let stdin = proc.stdin.take().unwrap();
+            let stdout = BufReader::new(proc.stdout.take().unwrap());
+            self.child = Some(KfChild { proc, stdin, stdout, dead: false });
+            ctx.count("kf.children");
+        }
+        let ch = self.child.as_mut().unwrap();
+        if ch.dead {
+            return "ABORT".into();
+        }
+        let mut died = writeln!(ch.stdin, "{}\t{}", ctx.line_no, line).is_err() || ch.stdin.flush().is_err();
+        let mut out = String::new();
+        if !died {
+            died = ch.stdout.read_line(&mut out).unwrap_or(0) == 0;
+        }
+        if !died {
+            let mut l = String::new();
+            let k = if ch.stdout.read_line(&mut l).unwrap_or(0) == 0 { None } else { l.trim().strip_prefix("@F ").and_then(|x| x.parse::<usize>().ok()) };
+            match k {
+                None => died = true,
+                Some(k) => {
+                    for _ in 0..k {
+                        let mut f = String::new();
+                        if ch.stdout.read_line(&mut f).unwrap_or(0) == 0 {
+                            died = true;
+                            break;
+                        }
+                        ctx.failures.push(f.trim_end().to_string());
+                        ctx.count("oracle_failures");
+                    }
+                }
+            }
+        }
+        if died {
+            ch.dead = true;
+            let status = ch.proc.wait().map(|s| s.to_string()).unwrap_or_else(|_| "?".into());
+            ctx.fail("crash", &format!("the process executing this case died while executing `{}` ({}); the API offers no error return here", line, status));
+            return "ABORT".into();
+        }
+        out.trim_end().to_string()
+    }
+}
+
+fn kf_child_main(case: &str) {
+    use std::io::BufRead;
+    std::panic::set_hook(Box::new(|_| {}));
+    let mut extra = BTreeMap::new();
+    extra.insert("kf-child".to_string(), "1".to_string());
+    let mut sc = Sc { st: St::None, capped: St::None, diverged: false, child: None };
+    let mut ctx = Ctx { line_no: 0, case: case.to_string(), failures: Vec::new(), stats: BTreeMap::new(), extra };
+    let stdin = std::io::stdin();
+    let out = std::io::stdout();
+    for l in stdin.lock().lines() {
+        let Ok(l) = l else { break };
+        let (no, line) = l.split_once('\t').unwrap_or(("0", &l));
+        ctx.line_no = no.parse().unwrap_or(0);
+        let r = std::panic::catch_unwind(std::panic::AssertUnwindSafe(|| sc.step(line, &mut ctx)));
+        let o = match r {
+            Ok(o) => o,
+            Err(_) => {
+                ctx.fail("panic", &format!("panic while executing `{}`", line));
+                "PANIC".into()
+            }
+        };
+        let mut w = out.lock();
+        writeln!(w, "{}", o).unwrap();
+        writeln!(w, "@F {}", ctx.failures.len()).unwrap();
+        for f in ctx.failures.drain(..) {
+            writeln!(w, "{}", f).unwrap();
+        }
+        w.flush().unwrap();
+    }
+    std::mem::forget(sc);
 }
 
 fn make(_f: &BTreeMap<String, String>) -> Box<dyn Scenario> {
-    Box::new(Sc { st: St::None })
+    Box::new(Sc { st: St::None, capped: St::None, diverged: false, child: None })
 }
 
 fn main() {
+    let args: Vec<String> = std::env::args().collect();
+    if args.get(1).map(|s| s.as_str()) == Some("kf-child") {
+        kf_child_main(args.get(2).map(|s| s.as_str()).unwrap_or("case kf-mtbdd-?"));
+        return;
+    }
     harness_main(generate, make)
 }
